@@ -322,6 +322,29 @@ Definition trigger_rejected (k : key) (v : json) : bool :=
   | _, _ => false
   end.
 Definition trigger (k : key) (v : json) : bool := trigger_lenient k v || trigger_rejected k v.
+(* what is left of the program_start_tc leniency, stated positively: "TCP" in any letter case, or four two-digit fields
+   separated by any three characters other than a line feed (the drop-frame pattern's unescaped dot) *)
+Definition tc_any_sep (s : text) : bool :=
+  match s with
+  | [a; b; x; c; d; y; e; f; z; g; h] =>
+      forallb digit [a; b; c; d; e; f; g; h] && forallb (fun c => negb (c =? 10)) [x; y; z]
+  | _ => false
+  end.
+(* 4. rejection-not-a-value-error: a value that is rejected is rejected by the decoder's ValueError ("Invalid ... value.
+   Expect: ...") — except where no decoder looks at the type of the value first: scc_reader.text_align calls .lower() on
+   whatever it is given (AttributeError, null included), general.document_lang and general.log_level have no decoder and
+   fail where they are used (ContentDocument.set_lang / logging's setLevel: TypeError).  Since the repair of
+   stl_reader.program_start_tc and font_stack these three keys are all that is left. *)
+Definition trigger_escape (k : key) (v : json) : bool :=
+  match k, v with
+  | KSccTextAlign, JStr _ => false
+  | KSccTextAlign, _ => true
+  | KDocumentLang, (JStr _ | JNull) => false
+  | KDocumentLang, _ => true
+  | KLogLevel, (JStr _ | JNull | JInt _ | JBool _) => false
+  | KLogLevel, _ => true
+  | _, _ => false
+  end.
 
 (* ------------------------------------------------------------------ the command line (README "Command line":
    tt convert [-h] -i INPUT -o OUTPUT [--itype ITYPE] [--otype OTYPE] [--config CONFIG] [--config_file CONFIG_FILE],
